@@ -71,6 +71,9 @@ pub struct PortState {
     /// a spinning implementation is stopped here with a hard error
     pub call_cap: usize,
     pub cap_hit: bool,
+    /// a slow line: every write()/read() call blocks for this long before it returns
+    pub write_block: Option<Duration>,
+    pub read_block: Option<Duration>,
 }
 
 pub fn weird_settings() -> PortSettings {
@@ -107,6 +110,8 @@ impl PortState {
             order: vec![],
             call_cap: 100_000,
             cap_hit: false,
+            write_block: None,
+            read_block: None,
         }
     }
 }
@@ -160,6 +165,9 @@ impl Read for TestPort {
                 }
             }
         };
+        if let Some(d) = s.read_block {
+            std::thread::sleep(d);
+        }
         s.read_calls.push(CallRecord { started, offered: buf.len(), result, at: Instant::now() });
         result.map_err(|k| io::Error::new(k, "injected read fault"))
     }
@@ -186,6 +194,9 @@ impl Write for TestPort {
                 Ok(n)
             }
         };
+        if let Some(d) = s.write_block {
+            std::thread::sleep(d);
+        }
         s.write_calls.push(CallRecord { started, offered: buf.len(), result, at: Instant::now() });
         result.map_err(|k| io::Error::new(k, "injected write fault"))
     }
